@@ -88,18 +88,52 @@ pub fn registry_check(steps: &[Step]) -> RegistryCheck {
         let mut born: Vec<usize> = vec![];
         let mut lazy = false;
         let mut lifetime_start = log.lock().unwrap().records.len();
+        // the guest's view, from the accepted events: handle count and host span record of every alive
+        // guest span; records whose guest span lost its last handle (the receiver asked the host to close
+        // them then; the Registry may close them later, when their children are gone)
+        let mut guest: std::collections::HashMap<u64, (usize, Option<usize>)> = Default::default();
+        let mut saved_guest = guest.clone();
+        let mut released: std::collections::HashSet<usize> = Default::default();
         for step in steps {
             match step {
                 Step::Recv(ev) => {
                     let ev = ev.clone();
                     let is_new_span = matches!(ev, TracingEvent::NewSpan { .. });
                     let n0 = log.lock().unwrap().records.len();
-                    let r = panic::catch_unwind(panic::AssertUnwindSafe(|| receiver.try_receive(ev)));
+                    let r = panic::catch_unwind(panic::AssertUnwindSafe(|| receiver.try_receive(ev.clone())));
                     let n1 = log.lock().unwrap().records.len();
                     if is_new_span {
                         born.extend(n0..n1);
                     } else if n1 > n0 {
                         lazy = true;
+                    }
+                    let created = if n1 > n0 { Some(n1 - 1) } else { None };
+                    if matches!(r, Ok(Ok(()))) {
+                        match &ev {
+                            TracingEvent::NewSpan { id, .. } => {
+                                guest.insert(*id, (1, created));
+                            }
+                            TracingEvent::SpanEntered { id } => {
+                                if let (Some(g), Some(k)) = (guest.get_mut(id), created) {
+                                    g.1 = Some(k);
+                                }
+                            }
+                            TracingEvent::SpanCloned { id } => {
+                                if let Some(g) = guest.get_mut(id) {
+                                    g.0 += 1;
+                                }
+                            }
+                            TracingEvent::SpanDropped { id } => {
+                                if let Some(g) = guest.get_mut(id) {
+                                    g.0 -= 1;
+                                    if g.0 == 0 {
+                                        released.extend(g.1);
+                                        guest.remove(id);
+                                    }
+                                }
+                            }
+                            _ => {}
+                        }
                     }
                     if r.is_err() {
                         break;
@@ -116,6 +150,11 @@ pub fn registry_check(steps: &[Step]) -> RegistryCheck {
                     saved_spans = spans.clone();
                     let local = if *keep { local } else { LocalSpans::default() };
                     receiver = TracingEventReceiver::new(md.clone(), spans, local);
+                    if !*keep {
+                        // the host spans of the alive guest spans are orphaned
+                        guest.values_mut().for_each(|g| g.1 = None);
+                    }
+                    saved_guest = guest.clone();
                     born.clear();
                     lazy = false;
                     lifetime_start = log.lock().unwrap().records.len();
@@ -126,7 +165,9 @@ pub fn registry_check(steps: &[Step]) -> RegistryCheck {
                     res.restored &= tracing::Span::current().id() == before;
                     {
                         let log = log.lock().unwrap();
-                        res.old_kept &= log.records[..lifetime_start] == closed_before[..lifetime_start];
+                        // no span that existed before the lifetime is closed by the rollback - except one the
+                        // guest itself had released in this lifetime and that only waited for its children
+                        res.old_kept &= (0..lifetime_start).all(|k| log.records[k] == closed_before[k] || released.contains(&k));
                         if !lazy {
                             res.drops_checked += 1;
                             res.born_closed &= born.iter().all(|&k| log.records[k] == 1);
@@ -134,6 +175,9 @@ pub fn registry_check(steps: &[Step]) -> RegistryCheck {
                         res.born_closed &= log.records.iter().all(|&c| c <= 1);
                     }
                     receiver = TracingEventReceiver::new(md.clone(), saved_spans.clone(), LocalSpans::default());
+                    guest = saved_guest.clone();
+                    guest.values_mut().for_each(|g| g.1 = None);
+                    saved_guest = guest.clone();
                     born.clear();
                     lazy = false;
                     lifetime_start = log.lock().unwrap().records.len();
